@@ -39,7 +39,13 @@ let edges : (string, int) Hashtbl.t = Hashtbl.create 256
 
 let () =
   load_sites Sys.argv.(2);
-  let ic = open_in Sys.argv.(1) in
+  let lines =
+    let ic = open_in Sys.argv.(1) in
+    let acc = ref [] in
+    (try while true do acc := input_line ic :: !acc done with End_of_file -> ());
+    close_in ic; Array.of_list (Stdlib.List.rev !acc) in
+  let nl = Array.length lines and pos = ref 0 in
+  let next_line () = if !pos >= nl then raise End_of_file else begin let l = lines.(!pos) in incr pos; l end in
   let w = ref (CvReplay.init_n (nat_of_int 16) (z_of_int 0)) in
   let steps = ref 0 and skipped = ref 0 and snaps = ref 0 and envs = ref 0 in
   let main_blk : (int, string) Hashtbl.t = Hashtbl.create 16 in
@@ -95,6 +101,66 @@ let () =
       (let tt = int_of_string (String.sub r 3 (String.length r - 3)) in try Hashtbl.find wn_rec tt with Not_found -> -99)
     else (try Hashtbl.find thread_of_blk r with Not_found -> -98) in
   let mode_name = function W -> "W" | R -> "R" in
+  (* a snapshot line "S CVQ a b | MQ c d": the two queues as model record ids (head first) *)
+  let parse_snapshot line =
+    match String.split_on_char ' ' line with
+    | _ :: "CVQ" :: rest ->
+      let rec split acc = function [] -> (Stdlib.List.rev acc, []) | "|" :: "MQ" :: r -> (Stdlib.List.rev acc, r) | x :: r -> split (x :: acc) r in
+      let (cq, mq) = split [] rest in
+      let id_of s =
+        let r = obj_region s in
+        if String.length r > 3 && String.sub r 0 3 = "stk" then
+          (try Hashtbl.find wn_rec (int_of_string (String.sub r 3 (String.length r - 3))) with Not_found -> -99)
+        else (try Hashtbl.find thread_of_blk r with Not_found -> -98) in
+      let ids l = Stdlib.List.map id_of (Stdlib.List.filter (fun s -> s <> "") l) in
+      Some (ids cq, ids mq)
+    | _ -> None in
+  let show_ids l = String.concat ";" (Stdlib.List.map string_of_int l) in
+  (* ---- F15: the choice of the step [VCas1] (successful CAS of wake_waiters on the mutex word, cv.c site 102) ----
+     wake_waiters tests nsync_dll_is_empty_ (pmu->waiters) in the thread-local work that follows this CAS; the model takes
+     "no plain locker is queued" from the environment (choice [CMuEmpty]).  Derived from the trace: the NEXT releasing CAS of
+     this thread (site 104; its new value shows whether MU_WAITING was cleared) and the snapshot taken after this event (the
+     real mutex queue at the moment of the test).  FAILS if the implementation cleared MU_WAITING while the model's muq is
+     non-empty or the real queue was not empty, or kept it while the real queue was empty. *)
+  let f15_choice (e : event) =
+    let t = e.tid in
+    let real_q = (if !pos < nl && String.length lines.(!pos) > 2 && lines.(!pos).[0] = 'S'
+                  then (match parse_snapshot lines.(!pos) with Some (_, mq) -> Some mq | None -> None) else None) in
+    let cleared =
+      let r = ref None and j = ref !pos in
+      while !r = None && !j < nl do
+        let l = lines.(!j) in
+        (if String.length l > 2 && l.[0] = 'E' then
+           match parse_event l with
+           | Some e4 when e4.tid = t && e4.file = "cv.c" && e4.kind = "cas"
+                          && (try Hashtbl.find sites (e4.file, e4.line) = ("wake_waiters", 4) with Not_found -> false) ->
+             if e4.a land 4 = 0 then fail "MU_WAITING is clear in the word wake_waiters read under the mutex spinlock";
+             r := Some (e4.b land 4 = 0)
+           | _ -> ());
+        incr j
+      done; !r in
+    let (w_try, _) = CvModel.step !w (Thr (nat t)) CNormal in
+    let model_q = Stdlib.List.map int_of_nat (CvModel.muq w_try) in
+    match cleared with
+    | Some true ->
+      if model_q <> [] then
+        fail (Printf.sprintf "the implementation cleared MU_WAITING at the release of the mutex spinlock, the model's mutex queue holds transferred waiters [%s]" (show_ids model_q));
+      (match real_q with
+       | Some (_ :: _ as rq) -> fail (Printf.sprintf "the implementation cleared MU_WAITING over a non-empty mutex queue [%s]" (show_ids rq))
+       | _ -> ());
+      cover "f15:cleared"; CMuEmpty
+    | Some false ->
+      (match real_q with Some [] -> fail "the implementation kept MU_WAITING at the release of the mutex spinlock while the mutex queue was empty" | _ -> ());
+      if model_q <> [] then begin
+        (* the transferred waiters keep the bit whatever the environment reports; report what the snapshot shows *)
+        let plain = (match real_q with Some rq -> Stdlib.List.exists (fun x -> not (Stdlib.List.mem x model_q)) rq | None -> true) in
+        cover (if plain then "f15:kept-transferred+plain" else "f15:kept-transferred");
+        if plain then CNormal else CMuEmpty
+      end else begin cover "f15:kept-plain-locker"; CNormal end
+    | None ->
+      (* the trace ends before the release *)
+      cover "f15:no-release-in-trace";
+      (match real_q with Some [] when model_q = [] -> CMuEmpty | _ -> CNormal) in
   let check_mu_word real =
     let m = int_of_z (CvModel.muw !w) in
     if m <> real then fail (Printf.sprintf "mutex word differs: model %d implementation %d" m real) in
@@ -218,7 +284,8 @@ let () =
     let chk_obj mo = if int_of_z mo <> o then fail (Printf.sprintf "object differs: model %d, implementation %d (%s)" (int_of_z mo) o e.obj) in
     let off = if is_rc e then (try Hashtbl.find rc_base (Hashtbl.find thread_of_blk (obj_region e.obj)) with Not_found -> 0) else 0 in
     let int_of_z z = int_of_z z + off in
-    (match e.kind, thr t CNormal with
+    let c = if key = 102 && e.kind = "cas" && e.ok then f15_choice e else CNormal in
+    (match e.kind, thr t c with
      | "load", EvLoad (s, mo, v) ->
        chk_site s; chk_obj mo;
        if int_of_z v <> e.a then fail (Printf.sprintf "load value differs: model %d implementation %d" (int_of_z v) e.a)
@@ -237,7 +304,7 @@ let () =
     if o = -2 && e.kind = "cas" && e.ok then check_mu_word e.b in
   (try
      while true do
-       let line = input_line ic in
+       let line = next_line () in
        if String.length line > 2 && line.[0] = 'E' then begin
          last_ev := line;
          match parse_event line with
@@ -282,29 +349,21 @@ let () =
             | None -> fail "the model has logged no return")
          | _ -> ()
        end else if String.length line > 2 && line.[0] = 'S' && !steps > 0 then begin
-         match String.split_on_char ' ' line with
-         | _ :: "CVQ" :: rest ->
-           let rec split acc = function [] -> (Stdlib.List.rev acc, []) | "|" :: "MQ" :: r -> (Stdlib.List.rev acc, r) | x :: r -> split (x :: acc) r in
-           let (cq, mq) = split [] rest in
-           let id_of s =
-             let r = obj_region s in
-             if String.length r > 3 && String.sub r 0 3 = "stk" then
-               (try Hashtbl.find wn_rec (int_of_string (String.sub r 3 (String.length r - 3))) with Not_found -> -99)
-             else (try Hashtbl.find thread_of_blk r with Not_found -> -98) in
-           let ids l = Stdlib.List.map id_of (Stdlib.List.filter (fun s -> s <> "") l) in
-           let show l = String.concat ";" (Stdlib.List.map string_of_int l) in
+         match parse_snapshot line with
+         | Some (cq_ids, mq_ids) ->
+           let show = show_ids in
            if CvReplay.spin_free !w then begin
              incr snaps;
-             let real = ids cq and model = Stdlib.List.map int_of_nat (CvModel.cvq !w) in
+             let real = cq_ids and model = Stdlib.List.map int_of_nat (CvModel.cvq !w) in
              if real <> model then fail (Printf.sprintf "cv queue differs: model [%s] implementation [%s]" (show model) (show real))
            end;
            if CvReplay.mu_spin_free !w then begin
-             let real = ids mq and model = Stdlib.List.map int_of_nat (CvModel.muq !w) in
+             let real = mq_ids and model = Stdlib.List.map int_of_nat (CvModel.muq !w) in
              let rec subseq a b = (match a, b with [], _ -> true | _, [] -> false | x :: a', y :: b' -> if x = y then subseq a' b' else subseq a b') in
              if not (subseq model real) then
                fail (Printf.sprintf "transferred waiters [%s] are not a subsequence of the real mutex queue [%s]" (show model) (show real))
            end
-         | _ -> ()
+         | None -> ()
        end
      done
    with
